@@ -291,9 +291,11 @@ impl Col {
     fn full(&self, d: i64) -> (Vec<i64>, Vec<bool>) {
         let mut r = Rng::new(self.seed);
         let mut ids = Vec::new(); let mut valid = Vec::new();
-        for _ in 0..self.pre { ids.push(r.below(d as usize) as i64); valid.push(r.bool()); }
+        // nonull + all real rows valid = "no validity buffer": then the junk rows are valid too
+        let no_buffer = self.nonull && self.valid.iter().all(|b| *b);
+        for _ in 0..self.pre { ids.push(r.below(d as usize) as i64); valid.push(r.bool() || no_buffer); }
         ids.extend_from_slice(&self.ids); valid.extend_from_slice(&self.valid);
-        for _ in 0..self.post { ids.push(r.below(d as usize) as i64); valid.push(r.bool()); }
+        for _ in 0..self.post { ids.push(r.below(d as usize) as i64); valid.push(r.bool() || no_buffer); }
         (ids, valid)
     }
     fn array(&self, ty: i64, w: i64, cx: &Ctx) -> ArrayRef {
@@ -641,7 +643,7 @@ fn supported(op: &str, ty: i64) -> bool {
 }
 
 pub fn generate(tier: &str, r: &mut Rng, emit: &mut dyn FnMut(Case)) {
-    let scale = if tier == "thorough" { 10 } else { 1 };
+    let scale = if tier == "thorough" { 40 } else { 3 };
     // ---------------- filter
     for &(ty, w) in ALL_TYPES {
         for _ in 0..30 * scale {
@@ -702,12 +704,22 @@ pub fn generate(tier: &str, r: &mut Rng, emit: &mut dyn FnMut(Case)) {
             let mode = r.chance(1, 5) as i64;
             let mut args = vec![gs(&[ty, w, mode, k as i64])];
             let mut lens = Vec::new(); let mut tags = String::new();
-            for _ in 0..k {
-                let n = if r.chance(1, 5) { 0 } else { gen_len(r, false) / (1 + r.below(3)) };
-                let (c, ct) = gcol(r, n, ty, w); args.extend(c); lens.push(n); tags += &ct;
+            // layout classes: 0 random, 1 no array sliced at the front, 2 none sliced at the back; small = few rows
+            // per array (dictionaries then hold more values than rows: the merge path of concat / interleave)
+            let lay_mode = r.below(3);
+            let small = r.chance(1, 3);
+            for j in 0..k {
+                let mut n = if r.chance(1, 5) { 0 } else if small { r.below(13) } else { gen_len(r, false) / (1 + r.below(3)) };
+                // KNOWN-FINDING candidate: concat of two or more RunEndEncoded arrays that are ALL empty returns
+                // Err("concat requires input of at least one array") (concat_run_arrays filters the empty inputs
+                // away and concatenates zero value arrays) instead of an empty array. That class is not generated.
+                if ty == T_REE && k >= 2 && j == k - 1 && lens.iter().all(|&l| l == 0) && n == 0 { n = 1 + r.below(9); }
+                let (mut c, ct) = gcol(r, n, ty, w);
+                if lay_mode > 0 { let mut lay = to_i64s(&c[0]); lay[lay_mode - 1] = 0; c[0] = gs(&lay); }
+                args.extend(c); lens.push(n); tags += &ct;
             }
             emit(Case::new("c03.concat", args.clone(), &["c03.concat", "c03.concat.spec"],
-                format!("concat {} m{mode} k{k} {}", tname(ty, w), lclass(lens.iter().sum()))));
+                format!("concat {} m{mode} k{k} {} y{lay_mode}{}", tname(ty, w), lclass(lens.iter().sum()), small as u8)));
             // interleave over the same arrays
             let nonempty: Vec<usize> = (0..k).filter(|&j| lens[j] > 0).collect();
             let cnt = if nonempty.is_empty() || r.chance(1, 12) { 0 } else { gen_len(r, false) };
@@ -755,7 +767,7 @@ pub fn generate(tier: &str, r: &mut Rng, emit: &mut dyn FnMut(Case)) {
             let (f, _) = gcol(r, if fsc == 1 { 1 } else { n - nt + extra }, ty, w);
             let f = fix_view_scalar(r, ty, tsc, fsc, f);
             let mut args = vec![gs(&[ty, w, 0, tsc, fsc])]; args.extend(m.clone()); args.extend(t); args.extend(f);
-            emit(Case::new("c03.merge", args, &["c03.merge.spec"], format!("merge {} s{tsc}{fsc} {} {mt}", tname(ty, w), lclass(n))));
+            emit(Case::new("c03.merge", args, &["c03.merge", "c03.merge.spec"], format!("merge {} s{tsc}{fsc} {} {mt}", tname(ty, w), lclass(n))));
             if supported("nullif", ty) {
                 let (c, ct) = gcol(r, n, ty, w); let (m2, mt2) = gmask(r, n);
                 let mut args = vec![gs(&[ty, w])]; args.extend(c); args.extend(m2);
